@@ -348,6 +348,10 @@ def wide_tasks(ck):
              "refmode": ["present", "absent", "low", "present"][i % 4],
              # a low threshold (everything that occurs is listed: most alleles) and any other one
              "thetas": [rnd.choice(WIDE_THETAS[:4]), rnd.choice(WIDE_THETAS[3:])]}
+        if i % 4 == 2:
+            # the boundary value 0 with 256 retained steps: haplotypes seen in one or two steps (occurrence below 0.01) are listed
+            t["m"] = 256
+            t["thetas"] = ["0", "0.0625"]
         if i % 4 in (0, 3):
             t["mcmc"] = [48, 16, rnd.choice(["0.125", "0.2", "0.25"])]      # one real-MCMC run on the same files
             t["depth"] = 8
